@@ -457,7 +457,7 @@ func runFixMaven(o *output, u *universe, m manifestSpec, vs []vulnSpec, cfg upgr
 		pre = "k_"
 	}
 	ro := options.DefaultRemediationOptions()
-	ro.UpgradeConfig = cfg
+	ro.UpgradeConfig = viaStrings(cfg) // the run gets the configuration as spec strings; cfg is the intended one
 	res0, err := guidedremediation.VerifC11ResolveManifest(ctx, cl, vm, m0, &ro)
 	if err != nil {
 		return
